@@ -152,7 +152,7 @@ def block_for_schema(rng, schema):
         maybe(.5, f"STATUS::{pick(rng, ['ACTIVE', 'DRAFT', 'draft', 'X'])}")
     else:
         maybe(.9, f"TYPE::{gen_scalar(rng)}")
-    nu = pick(rng, [0, 0, 1, 3, 4, 5, 6])
+    nu = pick(rng, [0, 0, 2, 3, 4, 5, 6])
     for f in rng.sample(UNKNOWN_FIELDS, nu):
         L.append(f"  {f}::{gen_scalar(rng)}")
     body = L[1:]
@@ -166,7 +166,8 @@ FRONTMATTER = ["---\nname: demo\ndescription: A demo skill\nallowed-tools: [Read
 
 
 def gen_doc(rng, flavour=None):
-    flavour = flavour or pick(rng, ["plain", "plain", "schema", "schema", "schema", "meta", "sections", "contract", "schemadoc", "malformed", "prose"])
+    flavour = flavour or pick(rng, ["plain", "plain", "schema", "schema", "schema", "schema", "schema", "schema", "meta", "sections", "sections",
+                                    "contract", "schemadoc", "schemadoc", "malformed", "prose"])
     name = pick(rng, ["DOC", "TEST", "A_1", "SESSION_LOG", "X"])
     L = []
     if flavour == "prose":
@@ -176,7 +177,7 @@ def gen_doc(rng, flavour=None):
     L.append(f"==={name}===")
     schema = None
     if flavour in ("schema", "meta", "contract") or rng.random() < .5:
-        schema = pick(rng, SCHEMAS)
+        schema = pick(rng, ["DEBATE_TRANSCRIPT"] * 4 + ["TEST_HOLOGRAPHIC"] * 3 + ["SKILL", "META"]) if flavour == "schema" else pick(rng, SCHEMAS)
         L += gen_meta(rng, schema)
         if rng.random() < .3:
             L.append("---")
@@ -251,22 +252,22 @@ def gen_calls(rng, n, resources=(), frozen=None):
             a = {"schema": schema}
             if rng.random() < .25:
                 c["files"] = {"in/doc.oct.md": doc}
-                a["file_path"] = "$SB/in/doc" + pick(rng, [".oct.md", ".oct.md", ".oct.md", ".txt", "2.oct.md"])
+                a["file_path"] = "$SB/in/doc" + pick(rng, [".oct.md"] * 8 + [".txt", "2.oct.md"])
             else:
                 a["content"] = doc
             for flag, p in (("fix", .35), ("debug_grammar", .15), ("grammar_hint", .2), ("diff_only", .15), ("compact", .15)):
                 if rng.random() < p:
                     a[flag] = True
             if rng.random() < .4:
-                a["profile"] = pick(rng, ["STRICT", "STANDARD", "LENIENT", "ULTRA", "strict", "BOGUS"])
+                a["profile"] = pick(rng, ["STRICT", "STRICT", "STANDARD", "LENIENT", "LENIENT", "ULTRA", "strict", "BOGUS"])
             c.update(tool="validate", args=a)
         elif r < .64:
-            a = {"target_path": "$SB/out/t" + pick(rng, [".oct.md"] * 5 + [".octave", ".md", ".txt", ""])}
-            mode = pick(rng, ["new", "new", "overwrite", "overwrite", "changes", "changes", "normalize", "both"])
+            a = {"target_path": "$SB/out/t" + pick(rng, [".oct.md"] * 9 + [".octave", ".md", ".txt"])}
+            mode = pick(rng, ["new"] * 4 + ["overwrite"] * 4 + ["changes"] * 4 + ["normalize"] * 2 + ["both"])
             if mode in ("overwrite", "changes", "normalize", "both"):
                 c["files"] = {"out/" + a["target_path"].rsplit("/", 1)[1]: other}
                 if rng.random() < .4:
-                    a["base_hash"] = sha(other) if rng.random() < .7 else "0" * 64
+                    a["base_hash"] = sha(other) if rng.random() < .8 else "0" * 64
             if mode in ("new", "overwrite", "both"):
                 a["content"] = doc
             if mode in ("changes", "both"):
@@ -298,9 +299,9 @@ def gen_calls(rng, n, resources=(), frozen=None):
             k = rng.random()
             if k < .45:
                 a["schema"] = schema
-            elif k < .9:
+            elif k < .94:
                 a["content"] = doc
-            elif k < .95:
+            elif k < .97:
                 a["schema"], a["content"] = schema, doc
             if rng.random() < .5:
                 a["format"] = pick(rng, ["gbnf", "json_schema", "json_schema", "ebnf"])
